@@ -384,6 +384,7 @@ const (
 	rphWhySecond   = "it was the second ack-eliciting packet since the last ACK"
 	rphWhyReorder  = "an ack-eliciting packet arrived below an earlier ack-eliciting one (it fills a gap)"
 	rphWhyGap      = "an ack-eliciting packet revealed a new gap"
+	rphWhyGapBelow = "an ack-eliciting packet arrived above the highest ack-eliciting one, below a larger packet, with numbers missing in between that no ACK has reported yet (it reveals a gap)"
 	rphWhyCE       = "an ack-eliciting packet was CE-marked"
 	rphWhyNoAlarm  = "an unacknowledged ack-eliciting packet has no ACK alarm"
 	rphWhyAlarmDue = "the ACK alarm time was reached"
@@ -635,6 +636,16 @@ func runRPH(t *testing.T, ksc KScenario, res *KResult) {
 		}
 	}
 
+	// a number in [lo, hi] that was never received, is still within what the tracker remembers, and lies above everything an ACK reported
+	unreportedMissing := func(s *rphSpace, lo, hi int64) bool {
+		for m := max(lo, s.ignore, s.prunedBelow+1, 0); m <= hi; m++ {
+			if !rphHas(s.all, m) {
+				return true
+			}
+		}
+		return false
+	}
+
 	// the model's bookkeeping of one processed packet
 	record := func(i int, pn int64, ecn protocol.ECN, ae bool, rcv monotime.Time) {
 		s := sp[i]
@@ -679,6 +690,9 @@ func runRPH(t *testing.T, ksc KScenario, res *KResult) {
 			why = rphWhyReorder
 		case wasNew && prevMaxAE >= 0 && pn > prevLargest+1:
 			why = rphWhyGap
+		case wasNew && prevMaxAE >= 0 && pn > prevMaxAE && pn < prevLargest && len(s.acks) > 0 && unreportedMissing(s, max(prevMaxAE, s.acks[len(s.acks)-1])+1, pn-1):
+			// RFC 9000 13.2.1, second case, when the largest packet received so far was not ack-eliciting
+			why = rphWhyGapBelow
 		case ecn == protocol.ECNCE:
 			why = rphWhyCE
 		default:
@@ -1022,6 +1036,8 @@ func rphShort(why string) string {
 		return "R"
 	case rphWhyGap:
 		return "G"
+	case rphWhyGapBelow:
+		return "B"
 	case rphWhyCE:
 		return "C"
 	case rphWhyNoAlarm:
